@@ -125,6 +125,10 @@ type Meta struct {
 	Assumptions []string // what the check assumes or trusts
 	Real        []string // components that ran real code
 	Stub        []string // components that ran a stand-in
+
+	// Nondeterministic: the run is a seeded workload under a scheduler the tape does not control (real threads).
+	// A violation is then not required to replay from its tape (its oracle is sound on the recorded evidence).
+	Nondeterministic bool
 }
 
 // ExecOnce runs the property once on a tape and returns the outcome. Panics of the harness
